@@ -63,6 +63,7 @@ def check(program: Program, run: Run) -> None:
     run.rule("R2 qualifier emitted iff table and (with_namespace or alias); text = alias else table name; Field and Star agree")
     run.rule("R3 INSERT column list, SET targets, ON CONFLICT/ON DUPLICATE update targets: with_namespace Const False; USING fields built without a table")
     run.rule("R4 a name that only ever denotes methods is never used un-called as a truth value or comparison operand")
+    run.rule("R6 (inherited from C17/R3) every rendered child is traversed by nodes_(): the foreign-table flag is computed from fields_(), which sees only what nodes_() yields")
     run.rule("R5 the foreign-table decision (_validate_table) identifies row sources by whole-object equality/membership over _from, _update_table and the joined items, never by a projection (name only) of the source")
     run.exhaustive = True
     tbl, qbc = program.cls("Table"), program.cls("QueryBuilder")
@@ -226,3 +227,20 @@ def check(program: Program, run: Run) -> None:
         run.ob("C11/R5 sources compared as whole objects", f.qualname, proj == 0 and whole >= 2, detail=f"{whole} whole-object tests, {proj} projections", where=f.loc())
     if nsites < 2:
         raise AnalysisError(f"anchor vanished: _validate_table whole-object source tests {nsites}")
+
+    # ---- R6: _validate_table looks at criterion.fields_(); a reference inside a child that nodes_() does not yield is
+    # invisible to it, the foreign-table flag stays off and the statement's columns are written bare
+    from . import c17
+    sub = Run("C17", run.tier)
+    c17.check(program, sub)
+    n6 = 0
+    for o in sub.obligations:
+        if o.rule.startswith("C17/R3"):
+            n6 += 1
+            run.ob("C11/R6 (inherited from C17/R3) rendered child is visible to the foreign-table decision", o.subject, o.ok, o.detail, o.where)
+    for fd in sub.findings:
+        if not fd.info and fd.key.startswith("C17/not-traversed:"):
+            run.finding("C11/foreign-reference-unseen:" + fd.key.split(":", 1)[1], "a reference to an outer table inside this child never sets the foreign-table flag, so the correlated statement is rendered unqualified: " + fd.what,
+                        where=fd.where, rule="R6 (inherited from C17/R3)")
+    if n6 < 60:
+        raise AnalysisError(f"instance count below floor: traversal obligations {n6}")
